@@ -19,6 +19,7 @@ import itertools
 import json
 import os
 import shutil
+import signal
 import subprocess
 import sys
 import tempfile
@@ -150,7 +151,13 @@ def run_guarded(groups, timeout_s):
         json.dump({"groups": groups}, fh)
     code = f"import sys; sys.path.insert(0, {os.path.dirname(os.path.dirname(os.path.abspath(__file__)))!r}); import vc; vc.assert_repo_import(); import props.C25 as P; P.worker_main({pin!r}, {pout!r}, {pprog!r})"
     try:
-        r = subprocess.run([sys.executable, "-c", code], timeout=timeout_s, capture_output=True, text=True)
+        # the watchdog budget is CPU time of the child (RLIMIT_CPU -> SIGXCPU), so a busy machine cannot turn a
+        # slow run into a false "does not terminate"; wall clock is only the outer cap
+        from vc.core import WALL_CAP, _child_cpu_limit
+
+        r = subprocess.run([sys.executable, "-c", code], timeout=timeout_s * WALL_CAP, capture_output=True, text=True, preexec_fn=lambda: _child_cpu_limit(timeout_s))
+        if r.returncode in (-signal.SIGXCPU, -signal.SIGKILL):
+            raise subprocess.TimeoutExpired(r.args, timeout_s)
         if r.returncode != 0 or not os.path.exists(pout):
             return "crash", (r.stderr or "")[-1500:]
         with open(pout) as fh:
